@@ -644,6 +644,7 @@ func TestC12CloseErrors(t *testing.T) {
 			if err != nil {
 				rt.Fatal(err)
 			}
+			y.Concurrent = concurrent || hasCancel
 			nt := concurrent
 			for _, e := range y.containerMade() {
 				if failing[e.Serial] {
